@@ -211,9 +211,10 @@ class EvolveAppTask(BaseEvolutionTask):
 
         logger.debug('New models: %r', new_models)
 
-        if migrating:
+        if migration_executor is not None:
             # If we have any applied migration names we wanted to record, do it
-            # before we begin any migrations.
+            # before we begin any migrations. This must happen even if there
+            # are no migrations left to run.
             #
             # The initial migrations about to be run in the pre-migration
             # stage are only treated as applied for planning purposes.
@@ -572,8 +573,12 @@ class EvolveAppTask(BaseEvolutionTask):
 
         # If we don't have anything to do, then all we'll need to set is
         # pre_migrate_state, since we'll still want it for signal emissions.
+        #
+        # The migrations considered applied are always needed, as evolutions
+        # may depend on them whether or not any migration is left to run.
         result = {
             'pre_migrate_state': pre_migrate_state,
+            'to_mark_applied': migrations_to_mark_applied,
         }
 
         if not pre_migration_plan:
@@ -587,7 +592,6 @@ class EvolveAppTask(BaseEvolutionTask):
         if pre_migration_plan or post_migration_plan:
             result.update({
                 'full_plan': full_migration_plan,
-                'to_mark_applied': migrations_to_mark_applied,
                 'post_plan': post_migration_plan,
                 'post_targets': post_migration_targets,
                 'pre_plan': pre_migration_plan,
